@@ -189,6 +189,13 @@ def wellNamed (c : Content) : Bool :=
             ++ (omKeys c.vars).map dName))
   && c.rxns.all fun kv => nodupB (omKeys kv.2.stoich)
 
+/-- the decidable hypothesis of `C07_equiv_partial`: no surrogates / data, plain variables and parameters
+    (F-C07-5 and a proof limit), numeric coefficients (proof limit), well-formed names, every variable has an
+    equation and only variables do (F-C07-3), at least one variable -/
+def okC (c : Content) : Bool :=
+  c.surs.isEmpty && c.data.isEmpty && noIA c.vars && noIA c.pars && numCoefs c && wellNamed c
+    && allVarsHaveEq c && stoichOnVars c && !c.vars.isEmpty
+
 def Rhs.reads : Rhs → List Name
   | .const _ => []
   | .app f => f.args
